@@ -40,6 +40,10 @@ def main (_args : List String) : IO Unit := do
       stdout.putStrLn s!"item {id}"
       stdout.putStrLn (runKindCase toks)
       stdout.putStrLn "end"
+    | "leafrace" :: id :: _ =>
+      stdout.putStrLn s!"item {id}"
+      stdout.putStrLn (runLeafRace toks)
+      stdout.putStrLn "end"
     | "outcase" :: id :: _ =>
       stdout.putStrLn s!"item {id}"
       stdout.putStrLn (runOutCase toks)
